@@ -852,3 +852,55 @@ Proof.
     + destruct (esi (r_lim r)) as [[|m]|]; try reflexivity. apply Nat.ltb_lt. exact (H1 m eq_refl).
     + destruct (est (r_lim r)) as [e|]; [|reflexivity]. apply Qltb_true. exact (H2 e eq_refl).
 Qed.
+
+(* ------------------------------------------------------------------------------------- *)
+(* the stagnation clock of the keeper model                                               *)
+(* ------------------------------------------------------------------------------------- *)
+(* within a day the reported stagnation time is the elapsed time cut to whole seconds *)
+Lemma stag_duration_bounds : forall now start,
+  (0 <= now - start)%Q -> (now - start < 1440)%Q ->
+  (stag_duration now start <= now - start)%Q /\ (now - start - (1 # 60) < stag_duration now start)%Q.
+Proof.
+  intros now start H0 H1. unfold stag_duration.
+  set (x := ((now - start) * 60)%Q).
+  assert (X0 : (0 <= x)%Q) by (unfold x; lra).
+  assert (X1 : (x < 86400)%Q) by (unfold x; lra).
+  pose proof (Qfloor_le x) as F1. pose proof (Qlt_floor x) as F2.
+  assert (Z0 : (0 <= Qfloor x)%Z).
+  { assert (L : (Qfloor 0 <= Qfloor x)%Z) by (apply Qfloor_resp_le; exact X0). exact L. }
+  assert (Z1 : (Qfloor x < 86400)%Z).
+  { rewrite Zlt_Qlt. apply (Qle_lt_trans _ x); [exact F1|]. exact X1. }
+  rewrite (Z.mod_small _ _ (conj Z0 Z1)).
+  rewrite (Qmake_Qdiv (Qfloor x) 60).
+  replace (inject_Z (Z.pos 60)) with 60%Q by reflexivity.
+  rewrite inject_Z_plus in F2. replace (inject_Z 1) with 1%Q in F2 by reflexivity.
+  remember (inject_Z (Qfloor x)) as zq eqn:Hz. clear Hz Z0 Z1.
+  unfold x in F1, F2, X0, X1. clear x.
+  unfold Qdiv. change (/ 60)%Q with (1 # 60)%Q. split; lra.
+Qed.
+
+Lemma keeper_clock_model : forall apps s first restart,
+  first = Nat.eqb (gen_num s) 0 -> stag_start s = restart ->
+  keeper_clock_ok first restart apps (keeper_run s apps) = true.
+Proof.
+  induction apps as [|[[imp t] qt] r IH]; intros s first restart Hf Hs; [reflexivity|].
+  cbn [keeper_run keeper_clock_ok].
+  assert (E : stag_start (keeper_append imp t s) = (if first || imp then t else restart)).
+  { unfold keeper_append. cbn [stag_start]. subst first restart.
+    change (Nat.eqb (S (gen_num s)) 1) with (Nat.eqb (gen_num s) 0).
+    destruct imp, (Nat.eqb (gen_num s) 0); reflexivity. }
+  rewrite E. set (restart' := if first || imp then t else restart) in *.
+  apply andb_true_iff. split; [apply andb_true_iff; split|].
+  - apply Qeq_bool_refl.
+  - apply implb_true_iff. intro H. apply andb_true_iff in H as [H1 H2].
+    apply Qle_bool_iff in H1. apply Qltb_true in H2.
+    destruct (stag_duration_bounds qt restart') as [B1 B2]; [lra|exact H2|].
+    apply andb_true_iff. split; [apply Qle_bool_iff; exact B1|apply Qltb_true; exact B2].
+  - apply IH; [reflexivity|exact E].
+Qed.
+
+(* the model's keeper satisfies the clock clause checked on the real GenerationKeeper: the stagnation clock
+   restarts exactly on the first recorded population and on improving ones *)
+Theorem model_keeper_clock_holds : forall t_create apps,
+  uholds (UKeeper t_create apps (keeper_run (keeper_init t_create) apps)) = true.
+Proof. intros. cbn [uholds]. apply keeper_clock_model; reflexivity. Qed.
